@@ -68,6 +68,7 @@ type BoundContract struct {
 	Trusted     bool
 	Variant     string
 	FreshResult map[int]bool
+	LoopExit    map[int][]ClauseExpr   // "loop N: exit P": P holds whenever loop N is left
 	UseLemma    map[int][]*ast.FuncLit // proved lemmas assumed at function entry (-1) or at the head of loop N
 	Lemma       *specFunc              // this bound contract is a lemma (proved by induction)
 	Known       map[string]string // clause label -> known finding id
@@ -204,6 +205,25 @@ func (env *specEnv) eval(e ast.Expr) Val {
 	}
 	switch x := e.(type) {
 	case *ast.ParenExpr:
+		if mk := env.marked(x); strings.HasPrefix(mk, "exit:") {
+			// atExit(N, e): e as it was when loop N was left (locals included)
+			fr := env.finalFr
+			if fr == nil {
+				fr = env.fr
+			}
+			var n int
+			fmt.Sscanf(strings.TrimPrefix(mk, "exit:"), "%d", &n)
+			if fr == nil || fr.exitStates[n] == nil {
+				panic(fmt.Sprintf("atExit(%d, ...): loop %d has not been left on any path here", n, n))
+			}
+			sub := *env
+			sub.st = fr.exitStates[n]
+			sub.fr = fr
+			sub.inOld = false
+			sub.finalFr = nil
+			sub.ctx = fr.exitCtx[n]
+			return sub.eval(x.X)
+		}
 		switch env.marked(x) {
 		case "final":
 			// final(p): the value of parameter p's variable at function exit (parameters are mutable locals)
@@ -274,6 +294,14 @@ func (env *specEnv) eval(e ast.Expr) Val {
 	case *ast.CallExpr:
 		return env.callExpr(x)
 	case *ast.TypeAssertExpr:
+		if call, ok := x.X.(*ast.CallExpr); ok {
+			if id, ok := call.Fun.(*ast.Ident); ok && id.Name == "mapValAtKey" {
+				// the value stored under an abstract key, read at the asserted (element) type
+				m := env.identity(call.Args[0])
+				cell := c.Idx(c.Fld(m, fGhostMap), env.evalTerm(call.Args[1]))
+				return u.load(env.st, cell, env.typeOf(x))
+			}
+		}
 		iv := env.eval(x.X).(*IfaceV)
 		t := env.typeOf(x)
 		switch t.Underlying().(type) {
@@ -822,6 +850,41 @@ func (env *specEnv) callExpr(x *ast.CallExpr) Val {
 			return u.keyTerm(env.st, env.eval(x.Args[0]), env.typeOf(x.Args[0]))
 		case "mapAt":
 			return u.load(env.st, env.mapCell(x.Args[0], x.Args[1]), types.NewInterfaceType(nil, nil))
+		case "exited": // the execution has left loop N (path condition of the merged loop-exit state)
+			fr := env.finalFr
+			if fr == nil {
+				fr = env.fr
+			}
+			n := int(constantInt(info.Types[x.Args[0]].Value))
+			if fr == nil || fr.exitStates[n] == nil {
+				return c.False
+			}
+			return fr.exitStates[n].pc
+		case "mapKeyOf":
+			return u.keyTerm(env.st, env.eval(x.Args[1]), env.typeOf(x.Args[1]))
+		case "mapKeyPresent", "mapKeyVisited":
+			m := env.identity(x.Args[0])
+			cell := c.Idx(c.Fld(m, fGhostMap), env.evalTerm(x.Args[1]))
+			f := fMapPresent
+			if name == "mapKeyVisited" {
+				f = fMapVisited
+			}
+			return c.And(c.Ne(m, c.NilA), u.readCell(env.st, "bool", c.Fld(cell, f)))
+		case "__forallk", "__existsk":
+			fl := x.Args[0].(*ast.FuncLit)
+			pv := info.Defs[fl.Type.Params.List[0].Names[0]].(*types.Var)
+			k := c.BoundVar(pv.Name(), BV(64))
+			sub := *env
+			sub.vars = map[*types.Var]Val{}
+			for kk, vv := range env.vars {
+				sub.vars[kk] = vv
+			}
+			sub.vars[pv] = k
+			body := sub.evalBool(fl.Body.List[0].(*ast.ReturnStmt).Results[0])
+			if name == "__forallk" {
+				return c.Forall([]*Term{k}, body)
+			}
+			return c.Exists([]*Term{k}, body)
 		case "mapHas":
 			return u.readCell(env.st, "bool", c.Fld(env.mapCell(x.Args[0], x.Args[1]), fMapPresent))
 		case "isFresh":
@@ -1208,6 +1271,12 @@ func (env *specEnv) region(items []ast.Expr, all bool) *Region {
 					cell := c.Idx(c.Fld(c.Obj(-5000000), fGhostMap), u.readCell(env.st, "bv64", c.Fld(env.identity(call.Args[0]), env.ghostFieldName("pathkey"))))
 					r.setRoot(cell); r.add("bv64", func(a *Term) *Term { return c.Eq(a, cell) })
 					continue
+				case "mapVisitedAll":
+					base := c.Fld(env.identity(call.Args[0]), fGhostMap)
+					r.add("bool", func(a *Term) *Term {
+						return c.And(c.FldIdIs(a, fMapVisited), c.IsIdx(c.FldBase(a)), c.Eq(c.IdxBase(c.FldBase(a)), base))
+					})
+					continue
 				case "mapAll":
 					base := c.Fld(env.identity(call.Args[0]), fGhostMap)
 					var et types.Type = types.NewInterfaceType(nil, nil)
@@ -1489,4 +1558,12 @@ func (env *specEnv) loadGlobal(g *ssa.Global, t types.Type) Val {
 		}
 	}
 	return u.load(env.st, a, t)
+}
+
+func constantInt(v constant.Value) int64 {
+	if v == nil {
+		panic("constant integer expected")
+	}
+	i, _ := constant.Int64Val(constant.ToInt(v))
+	return i
 }
